@@ -1,6 +1,8 @@
 import Driver.Parse
 import Driver.VmFam
 import Essential.Model.Types
+import Essential.Model.Hash
+import Essential.Model.Sign
 
 namespace Driver
 open Essential
@@ -23,6 +25,17 @@ def showSetErr : SetErr → String
 
 def showMutDecErr : MutDecErr → String
   | .wordsTooShort => "WordsTooShort" | .negativeKeyLength => "NegativeKeyLength" | .negativeValueLength => "NegativeValueLength"
+
+def tableRecover (tab : List SecpEntry) (h sg : List Nat) (i : Nat) : SecpOut :=
+  match tab.find? (fun e => e.hash == h && e.sig == sg && e.id == i) with
+  | some e => e.res
+  | none => .key []
+
+/-- the ECDSA parameter of the model, instantiated by a table of reference answers -/
+def tableEcdsa (tab : List SecpEntry) : Ecdsa where
+  sign := fun _ _ => ([], 0)
+  pk := fun _ => []
+  recover := tableRecover tab
 
 def typesFamily (fam : String) : Option (Parser String) :=
   match fam with
@@ -65,6 +78,43 @@ def typesFamily (fam : String) : Option (Parser String) :=
     pure (match decodeMutations ws with
       | .ok ms => "ok [" ++ ",".intercalate (ms.map showMutation) ++ "]"
       | .err e => s!"err {showMutDecErr e}" | .panic _ => "panic" | .abort _ => "abort")
+  | "recover_contract" => some do
+    let ps ← listOf pPredicate; let salt ← bytes
+    let sig ← bytes; let id ← nat
+    let tab ← listOf pSecp; done
+    let E := tableEcdsa tab
+    pure (match recoverContract E Sha256.sha256 ps salt sig id with
+      | some [] => "table-miss"
+      | some k => s!"ok {hexOfBytes k} verify=true"
+      | none => "err verify=false")
+  | "chksigned" => some do
+    let ps ← listOf pPredicate; let salt ← bytes
+    let sig ← bytes; let id ← nat
+    let tab ← listOf pSecp; done
+    let E := tableEcdsa tab
+    let rec_ := recoverContract E Sha256.sha256 ps salt sig id
+    if rec_ == some [] then pure "table-miss" else
+    pure (match checkSignedContract rec_.isSome ps with
+      | .ok () => "ok"
+      | .error .signature => "err Signature"
+      | .error .tooManyPredicates => "err TooManyPredicates"
+      | .error (.predicate i .tooManyNodes) => s!"err Predicate:{i}:TooManyNodes"
+      | .error (.predicate i .tooManyEdges) => s!"err Predicate:{i}:TooManyEdges")
+  | "addr_pred" => some do
+    let p ← pPredicate; done
+    pure (hexOfBytes (predicateAddr Sha256.sha256 p))
+  | "addr_prog" => some do
+    let b ← bytes; done
+    pure (hexOfBytes (Sha256.sha256 b))
+  | "addr_contract" => some do
+    let ps ← listOf pPredicate; let salt ← bytes; done
+    pure (hexOfBytes (contractAddr Sha256.sha256 ps salt))
+  | "addr_solution" => some do
+    let s ← pSolution; done
+    pure (hexOfBytes (solutionAddr Sha256.sha256 s) ++ " " ++ hexOfBytes (pcSolution s))
+  | "addr_set" => some do
+    let ss ← listOf pSolution; done
+    pure (hexOfBytes (setAddr Sha256.sha256 ss))
   | _ => none
 
 end Driver
